@@ -766,3 +766,50 @@ fn c10_dispatch_stream_no_end_20() {
     kani::cover!(true, "not dispatched");
     std::mem::forget(tcb);
 }
+
+
+//# harness: c08_dispatch_feed_isolation
+//# props: C08 C11
+//# tier: quick
+//# encodes: proto::repl (dispatcher in TCP mode: identification state, bytes kept while the protocol is unidentified, which bytes the responder is handed)
+//# bounds: flow F sends "GE" then "T /t HTTP/1.v CRLF CRLF" (target byte and version digit arbitrary); between the two a foreign unidentified flow G (own control block, arbitrary cookie / ports / addresses) sends 3 arbitrary bytes; the HTTP responder must be handed exactly F's stream
+//# stubs: http::repl and rpc::repl_tcp -> recorders comparing every byte they are handed with F's stream; other responders -> tags; proto_init -> constructor over the natively dumped real tables
+//# out: more than one foreign segment; state kept in tables of more than 300 elements (unwind bound)
+//# cover: responder fed
+#[kani::proof]
+#[kani::unwind(300)]
+#[kani::stub(crate::proto::proto_init, crate::proto::verif_proto_init_stub)]
+#[kani::stub(crate::proto::http::repl, rec_http)]
+#[kani::stub(crate::proto::stun::repl, tag_stun)]
+#[kani::stub(crate::proto::ssh::repl, tag_ssh)]
+#[kani::stub(crate::proto::ghost::repl, tag_ghost)]
+#[kani::stub(crate::proto::rpc::repl_tcp, rec_rpc_tcp)]
+#[kani::stub(crate::proto::rpc::repl_udp, tag_rpc_udp)]
+#[kani::stub(crate::proto::smb::repl_smb1, tag_smb1)]
+#[kani::stub(crate::proto::smb::repl_smb2, tag_smb2)]
+fn c08_dispatch_feed_isolation() {
+    lazy_static::initialize(&PROTO_SMACK);
+    let (s, n) = http_stream();
+    let x: [u8; 3] = kani::any();
+    kani::assume(x[0] != b'G' && x[0] != b'P' && x[0] != b'H' && x[0] != b'D' && x[0] != b'C' && x[0] != b'O' && x[0] != b'T' && x[0] != b'S' && x[0] != 0);
+    let masscanned = ms_plain([0, 0], MacAddr::new(0, 1, 2, 3, 4, 5));
+    let mut cf = ci_any(false, true);
+    let mut cg = ci_any(false, true);
+    unsafe {
+        FEED_EXPECT = s;
+        FEED_POS = 0;
+        FEED_OK = true;
+        FEED_STATE_OK = true;
+    }
+    let mut f = TCPControlBlock { smack_state: BASE_STATE, proto_id: PROTO_NONE, proto_state: None };
+    let mut g = TCPControlBlock { smack_state: BASE_STATE, proto_id: PROTO_NONE, proto_state: None };
+    let _ = repl(&s[..2], &masscanned, &mut cf, Some(&mut f));
+    let _ = repl(&x, &masscanned, &mut cg, Some(&mut g));
+    assert!(unsafe { FEED_POS } == 0, "C08: the foreign flow's bytes reached a stream responder");
+    let _ = repl(&s[2..n], &masscanned, &mut cf, Some(&mut f));
+    assert!(f.proto_id == PROTO_HTTP, "C08: traffic of another flow changed this flow's identification");
+    assert!(unsafe { FEED_OK && FEED_POS == n && FEED_STATE_OK }, "C08: traffic of another flow changed the bytes this flow's responder is handed");
+    kani::cover!(true, "responder fed");
+    std::mem::forget(f);
+    std::mem::forget(g);
+}
